@@ -20,6 +20,7 @@ import copy
 import functools
 import hashlib
 import itertools
+import types
 
 import numpy as np
 
@@ -37,10 +38,11 @@ RULE = (
     "hit on the subject (cache currsize/contents unchanged by a memoised call) and results were compared"
 )
 ASSUMPTIONS = [
-    "oracle = twin object graph built by the same builder, receiving the same operations, with every cachetools.Cache / functools cache found by attribute discovery (cardillo objects, lists, dicts; depth <= 5) cleared before each operation",
+    "oracle = twin object graph built by the same builder, receiving the same operations, with every cachetools.Cache / functools cache found by attribute discovery (attributes of cardillo objects, lists, dicts, closure cells of function attributes; depth <= 6) cleared before each operation",
     "canon = caches (ordered keys + value digests) + all reachable ndarray attributes + shared argument arrays determines all futures",
-    "for rods the fresh world is a deepcopy of a freshly built, never evaluated pristine world (checked against a fresh build by canon at the start of every case)",
-    "depth-bounded families (rods, Sphere2Sphere, Mesh1D degree 2, RigidBody all-methods group) are verified up to the stated depth only",
+    "for rods and meshes the fresh world is a deepcopy of a freshly built, never evaluated pristine world (checked against a fresh build by canon at the start of every case, and checked to be unmodified at its end)",
+    "depth-bounded families (rods, Sphere2Sphere, Mesh1D full alphabet, RigidBody all-methods group) are verified up to the stated depth only; states reached by the last level are counted without merging",
+    "an evaluation that raises without memoisation is outside the domain of the property (counted as n_twin_raises_excluded), whatever the memoised call does",
 ]
 MIN_NONTRIVIAL = 20
 MIN_OUTCOMES = 2
@@ -54,7 +56,7 @@ def _is_cardillo(o):
     return type(o).__module__.split(".")[0] == "cardillo"
 
 
-def discover(root, max_depth=5):
+def discover(root, max_depth=6):
     """returns (caches: list[(path, cache)], arrays: list[(path, ndarray)], lru: list[func])"""
     import cachetools
 
@@ -83,6 +85,14 @@ def discover(root, max_depth=5):
             for k in o:
                 walk(o[k], f"{path}[{k!r}]", d + 1)
             return
+        if isinstance(o, types.FunctionType):
+            # closures created in assembler_callback capture `self` (after a deepcopy: the ORIGINAL objects)
+            for i, cell in enumerate(o.__closure__ or ()):
+                try:
+                    walk(cell.cell_contents, f"{path}<cell{i}>", d + 1)
+                except ValueError:
+                    pass
+            return
         if hasattr(o, "__dict__") and _is_cardillo(o) and not callable(o):
             for k in vars(o):
                 walk(vars(o)[k], f"{path}.{k}", d + 1)
@@ -95,8 +105,8 @@ def discover(root, max_depth=5):
     return caches, arrays, lru
 
 
-def clear_caches(root):
-    caches, _, lru = discover(root)
+def clear_caches(world):
+    caches, _, lru = world.disc()
     for _, c in caches:
         c.clear()
     for f in lru:
@@ -136,7 +146,10 @@ def cache_order(c):
 def canon(world):
     import cachetools
 
-    caches, arrays, _ = discover(world.root())
+    old = [id(c) for _, c in world.disc()[0]]
+    caches, arrays, _ = world.disc(refresh=True)
+    if old != [id(c) for _, c in caches]:
+        raise RuntimeError("harness: an evaluation created or replaced cache objects; discovery must be refreshed after it")
     h = hashlib.blake2b(digest_size=16)
     for path, c in caches:
         h.update(path.encode())
@@ -154,7 +167,7 @@ def canon(world):
 
 
 def refdigest(world):
-    _, arrays, _ = discover(world.root())
+    _, arrays, _ = world.disc(refresh=True)
     h = hashlib.blake2b(digest_size=12)
     for path, a in arrays:
         h.update(path.encode())
@@ -163,7 +176,7 @@ def refdigest(world):
 
 
 def cache_sig(world):
-    caches, _, _ = discover(world.root())
+    caches, _, _ = world.disc()
     return tuple((p, frozenset(repr(tuple(k)) for k in cache_order(c))) for p, c in caches)
 
 
@@ -214,6 +227,29 @@ class _Raised:
 # ================================================================================================
 # worlds and letters
 # ================================================================================================
+_PRISTINE = {}
+
+
+def pristine_builder(key, fresh):
+    """build() = deepcopy of a freshly built, never evaluated world (its attribute discovery is
+    copied along, deepcopy keeps the object identities consistent).  check() validates the
+    deepcopy against a really fresh build (canon) at the start of every case."""
+    def build():
+        if key not in _PRISTINE:
+            w = fresh()
+            w.disc()
+            _PRISTINE[key] = (w, canon(w))
+        return copy.deepcopy(_PRISTINE[key][0])
+
+    def guard():
+        w, c = _PRISTINE[key]
+        if canon(w) != c:
+            raise RuntimeError("harness: the pristine world was modified through one of its deepcopies")
+    build.fresh = fresh
+    build.guard = guard
+    return build
+
+
 class World:
     def __init__(self, kind, obj, system=None, shared=None, extra=None):
         self.kind = kind
@@ -222,15 +258,32 @@ class World:
         self.shared = shared or {}
         self.extra = extra or {}
 
+        self._disc = None
+
     def root(self):
-        return [self.obj, self.system] if self.system is not None else self.obj
+        # the System itself holds no caches; its contributions are reached from the object under test
+        return self.obj
+
+    def disc(self, refresh=False):
+        """cached attribute discovery; refreshed after every state operation (which may replace objects)"""
+        if self._disc is None or refresh:
+            self._disc = discover(self.root())
+        return self._disc
+
+
+_ALIAS = {"A_nz": "A", "qa_nz": "qa", "t0n": "t0", "t0i": "t0", "t1i": "t1", "tT": "t1", "qi": "qf", "ui": "uf", "bi": "bf",
+          "ua_nz": "ua", "b1_nz": "b1", "q1_nz": "q1", "x0i": "x0", "x1i": "x1", "B0": "Bdef"}
 
 
 class Letter:
+    """argkey = the argument letters up to ==-equality (aliases -0.0/int/bool/explicit default are
+    merged), used only to describe failures (has the reference data changed since the last
+    evaluation with ==-equal arguments?)"""
     __slots__ = ("name", "kind", "fn", "method", "argkey")
 
     def __init__(self, name, kind, fn, method=None, argkey=None):
-        self.name, self.kind, self.fn, self.method, self.argkey = name, kind, fn, method, argkey
+        self.name, self.kind, self.fn, self.method = name, kind, fn, method
+        self.argkey = None if argkey is None else ",".join(_ALIAS.get(a, a) for a in argkey.split(","))
 
 
 def _negzero(a):
@@ -380,13 +433,14 @@ S2S_UD = np.array([0.1, 0.4, -0.5, 0.2, -0.7, 0.3, 0.6, -0.2, 0.9, -0.5, 0.3, 0.
 
 
 def _s2s_build(pair):
-    def build():
+    def fresh():
         if pair == "body-body":
             s, b1, b2, c = B.make_s2s("A")
         else:
             s, b1, b2, c = _make_s2s_frame()
         return World("Sphere2Sphere", c, system=s, extra={"pair": pair})
-    return build
+    # NOT a pristine deepcopy: the contact's closures would stay bound to the pristine bodies
+    return fresh
 
 
 def _frame_r(t):
@@ -448,14 +502,14 @@ def _s2s_letters(pair, group, tier):
     if tier != "quick":
         combos.append(("t0", "C"))
     for m in S2S_GROUPS[group]:
-        cs = combos if m in S2S_MEMO else combos[:3]
+        cs = combos if m in S2S_MEMO else (combos[:3] if tier != "quick" else [combos[0], combos[2]])
         for tn, qn in cs:
             L.append(Letter(f"{m}({tn},{qn})", "eval", _s2s_eval(m, tn, qn), method=m, argkey=f"{tn},{qn}"))
-    for qn in ("A", "B", "C"):
+    for qn in (("A", "B") if tier == "quick" else ("A", "B", "C")):
         def fn(w, qn=qn):
             w.obj.step_callback(0.0, _s2s_q(w, qn), None)
         L.append(Letter(f"stepcb({qn})", "op", fn))
-    for qn in ("A", "C"):
+    for qn in (("C",) if tier == "quick" else ("A", "C")):
         def fn(w, qn=qn):
             from cardillo.solver import SolverOptions
 
@@ -475,9 +529,6 @@ def _s2s_letters(pair, group, tier):
 # ------------------------------------------------------------------------------------------------
 # rods
 # ------------------------------------------------------------------------------------------------
-_PRISTINE = {}
-
-
 def _rod_fresh(interp, mixed):
     Q0, Q1 = B.rod_reference_configs(interp, mixed)
     rod, system = B.make_rod(interp, mixed, Q0)
@@ -490,12 +541,7 @@ def _rod_fresh(interp, mixed):
 
 
 def _rod_build(interp, mixed):
-    def build():
-        k = (interp, mixed)
-        if k not in _PRISTINE:
-            _PRISTINE[k] = _rod_fresh(interp, mixed)
-        return copy.deepcopy(_PRISTINE[k])
-    return build
+    return pristine_builder(("rod", interp, mixed), lambda: _rod_fresh(interp, mixed))
 
 
 ROD_XI = {"x25": 0.25, "x0": 0.0, "x0i": 0, "x5": 0.5, "x1": 1.0, "x1i": 1, "x75": 0.75}
@@ -523,7 +569,8 @@ def _rod_eval(method, qn, xn, bn):
             return rod.Wla_c_q(0.0, q, la)
         if method.startswith("_eval@") or method.startswith("_deval@"):
             name, at = method.split("@")
-            el, i = int(at[0]), int(at[1])
+            el = int(at[0])
+            i = rod.nquadrature - 1 if at[1] == "L" else int(at[1])
             qe = q[rod.elDOF[el]]
             return getattr(rod, name)(qe, rod.qp[el, i], rod.N_r[el, i], rod.N_r_xi[el, i])
         xi = ROD_XI[xn]
@@ -551,29 +598,31 @@ def _rod_letters(group, tier, mixed):
         for q in qs[1:]:
             ev("r_OP", q, "x25", "b1")
         ev("r_OP", "q1", "x25", "Bdef")
-        for x in xis[:2]:
+        for x in xis[:(1 if tier == "quick" else 2)]:
             ev("A_IB", "q1", x)
         ev("A_IB", "M", "x25")
-        ev("J_P", "q1", "x25", "b1")
-        ev("_eval@00", "q1")
         ev("_eval@00", "Q0")
-        ev("_eval@11", "Q0")
+        if tier != "quick":
+            ev("J_P", "q1", "x25", "b1")
+            ev("_eval@00", "q1")
+            ev("_eval@1L", "Q0")
+            ev("E_pot", "Q0")
         ev("E_pot", "q1")
-        ev("E_pot", "Q0")
         ev("c" if mixed else "h", "q1")
     else:
         for x in xis:
             ev("r_OP_q", "q1", x, "b1")
         for q in qs[1:]:
             ev("r_OP_q", q, "x25", "b1")
-        for x in xis[:2]:
+        for x in xis[:(1 if tier == "quick" else 2)]:
             ev("A_IB_q", "q1", x)
-        ev("J_P_q", "q1", "x25", "b1")
-        ev("_deval@00", "q1")
-        ev("_deval@11", "Q0")
+        ev("_deval@1L", "Q0")
+        if tier != "quick":
+            ev("J_P_q", "q1", "x25", "b1")
+            ev("_deval@00", "q1")
+            ev("E_pot", "q1")
         ev("r_OP", "q1", "x25", "b1")
         ev("Wla_c_q" if mixed else "h_q", "q1")
-        ev("E_pot", "q1")
 
     def setref(w, k):
         w.obj.set_reference_strains(w.extra["pools"][k].copy())
@@ -586,7 +635,7 @@ def _rod_letters(group, tier, mixed):
 
     def setM(w, k):
         w.shared["M"][:] = w.extra["pools"][k]
-    for k in ("q1", "q2"):
+    for k in (("q2",) if tier == "quick" else ("q1", "q2")):
         L.append(Letter(f"setM({k})", "op", lambda w, k=k: setM(w, k)))
 
     def reasm(w):
@@ -611,15 +660,19 @@ MESH_EL = [("None", None), ("0", 0), ("1", 1), ("np1", np.int64(1)), ("omitted",
 
 
 def _mesh_build(degree, basis):
-    def build():
-        return World("Mesh1D", B.make_mesh(degree, 2, 1, basis))
-    return build
+    return pristine_builder(("mesh", degree, basis), lambda: World("Mesh1D", B.make_mesh(degree, 2, 1, basis)))
 
 
-def _mesh_letters():
+MESH_SMALL_XI = ("0.25", "0.5", "1.0", "1i")
+MESH_SMALL_EL = ("None", "0")
+
+
+def _mesh_letters(alphabet="full"):
     L = []
     for xn, xi in MESH_XI:
         for en, el in MESH_EL:
+            if alphabet == "small" and not (xn in MESH_SMALL_XI and en in MESH_SMALL_EL):
+                continue
             def fn(w, xi=xi, el=el):
                 if isinstance(el, str):
                     return w.obj.eval_basis(xi)
@@ -651,7 +704,7 @@ def _family(case):
     if fam == "Rod":
         return _rod_build(case["interp"], case["mixed"]), _rod_letters(case["group"], tier, case["mixed"]), case["depth"]
     if fam == "Mesh1D":
-        return _mesh_build(case["degree"], case["basis"]), _mesh_letters(), case["depth"]
+        return _mesh_build(case["degree"], case["basis"]), _mesh_letters(case["alphabet"]), case["depth"]
     raise KeyError(fam)
 
 
@@ -670,10 +723,13 @@ def cases(tier, seed):
         for basis in ("Lagrange", "Lagrange_Disc"):
             if basis == "Lagrange_Disc" and quick:
                 continue
-            c = {"family": "Mesh1D", "degree": degree, "basis": basis, "depth": 3 if quick else 4, "tier": tier}
-            n = len(_mesh_letters())
-            for first in range(n):
+            # all aliasing collisions: every history of length 2 over the full alphabet (sharded) ...
+            c = {"family": "Mesh1D", "degree": degree, "basis": basis, "alphabet": "full", "depth": 2 if quick else 3}
+            for first in range(len(_mesh_letters("full"))):
                 out.append(dict(c, first=first))
+            # ... evictions and re-queries: small alphabet (6 distinct keys > maxsize) to the fixpoint
+            out.append({"family": "Mesh1D", "degree": degree, "basis": basis, "alphabet": "small",
+                        "depth": 99 if (degree == 1 or not quick) else 5})
     for pair in ("body-body", "frame-body"):
         for g in S2S_GROUPS:
             if pair == "frame-body" and g == "friction" and quick:
@@ -699,9 +755,12 @@ def cases(tier, seed):
 # ================================================================================================
 def _apply(world, letter, twin):
     if twin:
-        clear_caches(world.root())
+        clear_caches(world)
     try:
-        return letter.fn(world)
+        r = letter.fn(world)
+        if letter.kind == "op":
+            world.disc(refresh=True)
+        return r
     except Exception as e:  # classified by the comparison (both worlds must behave the same)
         import traceback, os
 
@@ -716,45 +775,51 @@ def _apply(world, letter, twin):
 def check(case):
     build, letters, max_depth = _family(case)
     fails = {}
-    stats = {"n_hits": 0, "n_compared": 0, "n_both_raise": 0, "max_diff_equal_cases": 0.0, "n_state_ops": 0}
+    stats = {"n_hits": 0, "n_compared": 0, "n_twin_raises_excluded": 0, "n_state_ops": 0}
     transitions = 0
     outcomes = set()
 
     # pristine-deepcopy builders must agree with a really fresh build
-    if case["family"] == "Rod":
-        w_fresh = _rod_fresh(case["interp"], case["mixed"])
-        if canon(w_fresh) != canon(build()):
-            raise RuntimeError("harness: deepcopy of the pristine rod world differs from a fresh build")
+    if hasattr(build, "fresh"):
+        if canon(build.fresh()) != canon(build()):
+            raise RuntimeError("harness: deepcopy of the pristine world differs from a fresh build")
 
-    def run(hist, li):
-        """replays hist on fresh subject+twin, applies letter li with comparison; returns canon"""
+    def run(hist, li, explain=False, need_canon=True):
+        """replays hist on fresh subject+twin, applies letter li with comparison; returns canon.
+        explain=True (second execution of a failing transition) additionally tracks whether the
+        reference data changed since the last evaluation with the same arguments."""
         nonlocal transitions
         subj, twin = build(), build()
         last_ref = {}
         for lj in hist:
             Lj = letters[lj]
-            if Lj.kind == "eval":
+            if explain and Lj.kind == "eval":
                 last_ref[Lj.argkey] = refdigest(subj)
             _apply(subj, Lj, False)
             _apply(twin, Lj, True)
         L = letters[li]
-        transitions += 1
+        if not explain:
+            transitions += 1
         if L.kind == "eval":
-            ref_now = refdigest(subj)
+            ref_now = refdigest(subj) if explain else None
             sig0 = cache_sig(subj)
             r1 = _apply(subj, L, False)
             sig1 = cache_sig(subj)
             r2 = _apply(twin, L, True)
-            stats["n_compared"] += 1
             hit = sig0 == sig1 and any(len(k) for _, k in sig0)
-            if hit:
-                stats["n_hits"] += 1
             eq, md = compare(r1, r2)
-            if isinstance(r1, _Raised) and isinstance(r2, _Raised) and eq:
-                stats["n_both_raise"] += 1
-                outcomes.add("both-raise:" + r1.name)
-            else:
+            if isinstance(r2, _Raised):
+                # the evaluation does not exist without memoisation: outside the domain of the property
+                eq = True
+                if not explain:
+                    stats["n_twin_raises_excluded"] += 1
+                    outcomes.add("twin-raises(" + r2.name + "):" + ("subject-raises" if isinstance(r1, _Raised) else "subject-returns"))
+            elif not explain:
+                stats["n_compared"] += 1
+                stats["n_hits"] += 1 if hit else 0
                 outcomes.add(("hit" if hit else "miss") + (":equal" if eq else ":DIFFERENT"))
+            if not eq and not explain:
+                return run(hist, li, explain=True, need_canon=need_canon)
             if not eq:
                 site = f"{case['family']}.{L.method} memoised vs cache-free twin"
                 if isinstance(r1, _Raised) != isinstance(r2, _Raised):
@@ -771,7 +836,7 @@ def check(case):
                                             "n_fail_in_case": 0}}
                 fails[site]["data"]["n_fail_in_case"] += 1
         else:
-            stats["n_state_ops"] += 1
+            stats["n_state_ops"] += 0 if explain else 1
             r1 = _apply(subj, L, False)
             r2 = _apply(twin, L, True)
             if isinstance(r1, _Raised) or isinstance(r2, _Raised):
@@ -782,7 +847,7 @@ def check(case):
                 site = f"{case['family']} state op {L.name.split('(')[0]} raises only " + ("with" if isinstance(r1, _Raised) else "without") + " memoisation"
                 fails.setdefault(site, {"site": site, "msg": f"history {names}: {getattr(r1, 'text', None)} / {getattr(r2, 'text', None)}",
                                         "data": {"history": names, "n_fail_in_case": 1}})
-        return canon(subj)
+        return canon(subj) if need_canon else None
 
     c0 = canon(build())
     seen = {c0}
@@ -795,22 +860,29 @@ def check(case):
         frontier = [(first,)] if c1 not in seen else []
         seen.add(c1)
         depth = 1
-    states = len(seen)
+    n_unmerged_last = 0
     while frontier and depth < max_depth:
         new = []
+        last = depth + 1 >= max_depth  # successors of the last level are not expanded: no canon needed
         for hist in frontier:
             for li in range(len(letters)):
-                c = run(hist, li)
-                if c not in seen:
+                c = run(hist, li, need_canon=not last)
+                if last:
+                    n_unmerged_last += 1
+                elif c not in seen:
                     seen.add(c)
                     new.append(hist + (li,))
+        if last:
+            new = [None] if frontier else []
         frontier = new
         depth += 1
+    if hasattr(build, "guard"):
+        build.guard()
     fix = not frontier
     outcomes.add("fixpoint" if fix else "depth-bound")
     stats["max_depth"] = depth
     stats["n_fixpoint_cases"] = 1 if fix else 0
     stats["max_alphabet"] = len(letters)
     return {"fails": list(fails.values()), "nontrivial": stats["n_hits"] > 0 and stats["n_compared"] > 0,
-            "evals": stats["n_compared"], "states": len(seen), "transitions": transitions,
+            "evals": stats["n_compared"], "states": len(seen) + n_unmerged_last, "transitions": transitions,
             "outcome": sorted(outcomes), "stats": stats}
